@@ -497,7 +497,10 @@ Definition ok_step (b : backend) (v : view) (m : mop) (o : obs) : bool * view :=
                    | _, [] => pend1
                    end in
       (forallb (fun i => o_key o && onat_eqb owner' (Some i)) act1
-       && match creator with Some c => candidate c | None => negb (taken && is_etcd b) end,
+       && match creator with Some c => candidate c | None => negb (taken && is_etcd b) end
+       (* client loops keep trying: a key that was free with somebody still registering
+          has been taken by the end of the tick *)
+       && (if is_w b && negb (v_key v) then match v_pend v with Some _ => o_key o | None => true end else true),
        mkView act1 owner' (o_key o) pend')
   | MStop i =>
       let act := filter (fun j => negb (closed_at o j)) (remove_nat i (v_active v)) in
